@@ -1,10 +1,12 @@
 import EinxModel.Proofs.Denote
+import EinxModel.Denote.Expr2
 /-! The loop form (`Denote.denoteId`, written with `for` in `Except`) and the functional form
 (`Denote.denoteIdFun`) of the `id` denotation agree on concatenation-free single-input single-output
 operations (up to the text of the error message). -/
 namespace Einx.Denote
 open Einx Einx.IR
-open Einx.Update (mapOpt)
+open Einx.Update (mapOpt mapOpt_congr mapOpt_length)
+open Einx.Order.Fresh (InjOn)
 
 mutual
 theorem nconcat_of_concatFree : ∀ d : Dim, d.concatFree = true → d.nconcat = 0
@@ -128,5 +130,637 @@ theorem denoteId_eq_denoteIdFun (e1 e2 : Expr) (h1 : e1.concatFree = true) (h2 :
       cases M with
       | error e => simp only [error_bind, okOpt, Option.map_none]
       | ok cs => simp only [ok_bind, pure_bind, okOpt, Option.map_some]; rfl
+
+/-! ## Any number of inputs/outputs, and elementwise operations -/
+
+/-! ### the loop form, with named loop bodies -/
+
+abbrev Outs := List (List (Option Cell))
+
+def idInner (vi : List Dim) (si : List Nat) (i : Nat) (vo : List Dim) (so : List Nat) (k : Nat) :
+    Assign → Outs → E (ForInStep Outs) := fun σ outs => do
+  let σ' ← optE "input axis missing from output" (extend σ (Dim.leavesL vi))
+  let po ← optE "unassigned output axis" (position vo σ)
+  let pi ← optE "unassigned input axis" (position vi σ')
+  pure (ForInStep.yield (outs.set k ((outs.getD k []).set (ravel so po) (some (Cell.src i (ravel si pi))))))
+
+def idOuter (exprsOut : List Expr) : (List Dim × Nat × List Nat) × (List Dim × Nat) → Outs → E (ForInStep Outs) :=
+  fun x outs =>
+    match x with
+    | ((vi, i, si), vo, k) => do
+      let s ← forIn (assignments (axesOf (Dim.leavesL vo))) outs
+        (idInner vi si i vo (shapeOf (exprsOut.getD k (Expr.list []))) k)
+      pure (ForInStep.yield s)
+
+def idFinal : Expr × List (Option Cell) → List (Tensor Cell) → E (ForInStep (List (Tensor Cell))) :=
+  fun x res =>
+    match x with
+    | (e, cells) => do
+      let cs ← List.mapM (optE "output not fully defined") cells
+      pure (ForInStep.yield (res ++ [{ shape := shapeOf e, data := cs }]))
+
+theorem denoteId_eq (exprsIn exprsOut : List Expr) :
+    denoteId exprsIn exprsOut =
+      (let vin := (exprsIn.zipIdx).flatMap (fun (e, i) => (views e).map (fun v => (v, i, shapeOf e)))
+       let vout := (exprsOut.zipIdx).flatMap (fun (e, k) => (views e).map (fun v => (v, k)))
+       if vin.length != vout.length then throw "number of virtual inputs and outputs differs"
+       else do
+         let s ← forIn (vin.zip vout) (exprsOut.map (fun e => List.replicate (prod (shapeOf e)) none)) (idOuter exprsOut)
+         forIn (exprsOut.zip s) [] idFinal) := by
+  unfold denoteId
+  simp only []
+  split
+  · rfl
+  · simp only [bind_pure]; rfl
+
+
+theorem okOpt_bind {α β : Type} (x : E α) (f : α → E β) :
+    okOpt (x >>= f) = (okOpt x).bind (fun a => okOpt (f a)) := by
+  cases x <;> rfl
+
+theorem okOpt_pure {α : Type} (a : α) : okOpt (pure a : E α) = some a := rfl
+
+theorem okOpt_optE {α : Type} (msg : String) (o : Option α) : okOpt (optE msg o) = o := by
+  cases o <;> rfl
+
+def setter (acc : List (Option Cell)) (e : Nat × Cell) : List (Option Cell) := acc.set e.1 (some e.2)
+
+theorem set_getD_set (s : Outs) (k : Nat) (y : List (Option Cell)) (F : List (Option Cell) → List (Option Cell)) :
+    (s.set k y).set k (F ((s.set k y).getD k [])) = s.set k (F y) := by
+  rw [List.set_set]
+  by_cases h : k < s.length
+  · simp [List.getD_eq_getElem?_getD, h]
+  · rw [List.set_eq_of_length_le (by omega), List.set_eq_of_length_le (by omega)]
+
+/-- The inner loop of `denoteId` over the assignments, for any state and output index. -/
+theorem inner_loop_gen (vi : List Dim) (si : List Nat) (i : Nat) (vo : List Dim) (so : List Nat) (k : Nat) :
+    ∀ (asg : List Assign) (s : Outs),
+      okOpt (forIn asg s (idInner vi si i vo so k))
+      = (mapOpt (idEntry vi si i vo so) asg).map (fun es => s.set k (es.foldl setter (s.getD k []))) := by
+  intro asg
+  induction asg with
+  | nil =>
+    intro s
+    simp only [List.forIn_nil, okOpt_pure, mapOpt, Option.map_some, List.foldl_nil]
+    by_cases h : k < s.length
+    · congr 1; apply List.ext_getElem? ; intro j
+      simp only [List.getElem?_set, List.getD_eq_getElem?_getD]
+      by_cases e : k = j
+      · subst e; simp [h]
+      · simp [e]
+    · rw [List.set_eq_of_length_le (by omega)]
+  | cons σ asg ih =>
+    intro s
+    rw [List.forIn_cons]
+    simp only [mapOpt, idEntry, flatPos, cellAt, idInner]
+    cases hx : extend σ (Dim.leavesL vi) with
+    | none => simp only [optE_none, error_bind, okOpt, Option.map_none]
+    | some σ' =>
+      cases hpo : position vo σ with
+      | none => simp only [optE_some, optE_none, pure_bind, error_bind, okOpt, Option.map_none]
+      | some po =>
+        cases hpi : position vi σ' with
+        | none => simp only [hpi, optE_some, optE_none, pure_bind, error_bind, okOpt, Option.map_none, Option.map_some]
+        | some pi =>
+          simp only [hpi, optE_some, pure_bind, Option.map_some]
+          have := ih (s.set k ((s.getD k []).set (ravel so po) (some (Cell.src i (ravel si pi)))))
+          rw [this]
+          cases mapOpt (idEntry vi si i vo so) asg with
+          | none => rfl
+          | some es =>
+            simp only [Option.map_some, List.foldl_cons, Option.some.injEq]
+            exact set_getD_set s k _ (fun o => es.foldl setter o)
+
+
+abbrev IdPair := (List Dim × Nat × List Nat) × (List Dim × Nat)
+
+/-- The entries one virtual input/output pair writes (`so` looked up as the loop does). -/
+def pairEntries (exprsOut : List Expr) (x : IdPair) : Option (List (Nat × Cell)) :=
+  mapOpt (idEntry x.1.1 x.1.2.2 x.1.2.1 x.2.1 (shapeOf (exprsOut.getD x.2.2 (Expr.list []))))
+    (assignments (axesOf (Dim.leavesL x.2.1)))
+
+/-- Apply the entries of every pair to the output slot of its key. -/
+def applyEntries (s : Outs) (kes : List (Nat × List (Nat × Cell))) : Outs :=
+  kes.foldl (fun s ke => s.set ke.1 (ke.2.foldl setter (s.getD ke.1 []))) s
+
+theorem outer_loop (exprsOut : List Expr) : ∀ (ps : List IdPair) (s : Outs),
+    okOpt (forIn ps s (idOuter exprsOut))
+      = (mapOpt (pairEntries exprsOut) ps).map (fun ess => applyEntries s (List.zip (ps.map (fun x => x.2.2)) ess)) := by
+  intro ps
+  induction ps with
+  | nil => intro s; rfl
+  | cons x ps ih =>
+    intro s
+    obtain ⟨⟨vi, i, si⟩, vo, k⟩ := x
+    rw [List.forIn_cons]
+    simp only [idOuter, bind_assoc, pure_bind]
+    rw [okOpt_bind, inner_loop_gen]
+    simp only [mapOpt, pairEntries]
+    cases mapOpt (idEntry vi si i vo (shapeOf (exprsOut.getD k (Expr.list [])))) (assignments (axesOf (Dim.leavesL vo))) with
+    | none => rfl
+    | some es =>
+      simp only [Option.map_some, Option.bind_some, ih]
+      cases mapOpt (pairEntries exprsOut) ps with
+      | none => rfl
+      | some ess => rfl
+
+theorem final_loop : ∀ (l : List (Expr × List (Option Cell))) (res : List (Tensor Cell)),
+    okOpt (forIn l res idFinal)
+      = (mapOpt (fun (x : Expr × List (Option Cell)) => (mapOpt id x.2).map (fun cs => (⟨shapeOf x.1, cs⟩ : Tensor Cell))) l).map
+          (fun ts => res ++ ts) := by
+  intro l
+  induction l with
+  | nil => intro res; simp [mapOpt, okOpt_pure]
+  | cons x l ih =>
+    intro res
+    obtain ⟨e, cells⟩ := x
+    rw [List.forIn_cons]
+    simp only [idFinal, bind_assoc, pure_bind]
+    rw [okOpt_bind, okOpt_mapM_optE]
+    simp only [mapOpt]
+    cases mapOpt id cells with
+    | none => rfl
+    | some cs =>
+      simp only [Option.bind_some, Option.map_some, ih]
+      cases mapOpt (fun (x : Expr × List (Option Cell)) => (mapOpt id x.2).map (fun cs => (⟨shapeOf x.1, cs⟩ : Tensor Cell))) l with
+      | none => rfl
+      | some ts => simp
+
+theorem applyEntries_shift (o : List (Option Cell)) : ∀ (kes : List (Nat × List (Nat × Cell))) (s : Outs),
+    applyEntries (o :: s) (kes.map (fun ke => (ke.1 + 1, ke.2))) = o :: applyEntries s kes := by
+  intro kes
+  induction kes with
+  | nil => intro s; rfl
+  | cons ke kes ih =>
+    intro s
+    simp only [applyEntries, List.map_cons, List.foldl_cons, List.set_cons_succ, List.getD_cons_succ] at ih ⊢
+    exact ih _
+
+theorem applyEntries_range : ∀ (ess : List (List (Nat × Cell))) (s : Outs), ess.length = s.length →
+    applyEntries s (List.zip (List.range ess.length) ess) = List.zipWith (fun es o => es.foldl setter o) ess s := by
+  intro ess
+  induction ess with
+  | nil => intro s h; cases s <;> simp_all [applyEntries]
+  | cons es ess ih =>
+    intro s h
+    cases s with
+    | nil => simp at h
+    | cons o s =>
+      have hr : List.range (es :: ess).length = 0 :: (List.range ess.length).map Nat.succ := by
+        rw [List.length_cons, List.range_succ_eq_map]
+      have hz : List.zip ((List.range ess.length).map Nat.succ) ess
+          = (List.zip (List.range ess.length) ess).map (fun ke => (ke.1 + 1, ke.2)) := by
+        rw [List.zip_map_left]; rfl
+      rw [hr, List.zip_cons_cons, hz]
+      have : applyEntries (o :: s) ((0, es) :: (List.zip (List.range ess.length) ess).map (fun ke => (ke.1 + 1, ke.2)))
+          = applyEntries (es.foldl setter o :: s) ((List.zip (List.range ess.length) ess).map (fun ke => (ke.1 + 1, ke.2))) := by
+        simp [applyEntries]
+      rw [this, applyEntries_shift, ih s (by simpa using h)]
+      rfl
+
+
+/-! list plumbing -/
+
+theorem concatFreeL_cons (c : Expr) (cs : List Expr) :
+    Expr.concatFreeL (c :: cs) = (c.concatFree && Expr.concatFreeL cs) := by simp [Expr.concatFreeL]
+
+theorem vin_of_concatFree {β : Type} (g : Expr → Nat → List Dim → β) : ∀ (l : List Expr) (n : Nat),
+    Expr.concatFreeL l = true →
+    (l.zipIdx n).flatMap (fun (x : Expr × Nat) => (views x.1).map (g x.1 x.2))
+      = (l.zipIdx n).map (fun x => g x.1 x.2 (rootDims x.1)) := by
+  intro l
+  induction l with
+  | nil => intro n _; rfl
+  | cons e l ih =>
+    intro n h
+    rw [concatFreeL_cons, Bool.and_eq_true] at h
+    simp only [List.zipIdx_cons, List.flatMap_cons, List.map_cons, views_of_concatFree h.1, List.map_nil,
+      List.singleton_append, ih (n + 1) h.2]
+
+theorem zip_zipIdx_zipIdx {α β : Type} : ∀ (l1 : List α) (l2 : List β) (n : Nat),
+    List.zip (l1.zipIdx n) (l2.zipIdx n)
+      = (List.zip (l1.zipIdx n) l2).map (fun q => (q.1, (q.2, q.1.2))) := by
+  intro l1
+  induction l1 with
+  | nil => intro l2 n; simp
+  | cons a l1 ih =>
+    intro l2 n
+    cases l2 with
+    | nil => simp
+    | cons b l2 => simp [List.zipIdx_cons, ih l2 (n + 1)]
+
+theorem getD_of_mem_zip {α β : Type} (d : β) : ∀ (l1 : List α) (l2 pre : List β),
+    ∀ q ∈ List.zip (l1.zipIdx pre.length) l2, (pre ++ l2).getD q.1.2 d = q.2 := by
+  intro l1
+  induction l1 with
+  | nil => intro l2 pre q hq; simp at hq
+  | cons a l1 ih =>
+    intro l2 pre q hq
+    cases l2 with
+    | nil => simp at hq
+    | cons b l2 =>
+      simp only [List.zipIdx_cons, List.zip_cons_cons, List.mem_cons] at hq
+      rcases hq with rfl | hq
+      · simp
+      · have := ih l2 (pre ++ [b]) q (by simpa using hq)
+        simpa using this
+
+theorem zip_zipWith_aux {α β γ δ : Type} (p : α → γ) (r : α → δ) (F : β → δ → δ) : ∀ (Q : List α) (ess : List β),
+    List.zip (Q.map p) (List.zipWith F ess (Q.map r)) = (List.zip Q ess).map (fun ab => (p ab.1, F ab.2 (r ab.1))) := by
+  intro Q
+  induction Q with
+  | nil => intro ess; simp
+  | cons q Q ih =>
+    intro ess
+    cases ess with
+    | nil => simp
+    | cons es ess => simp [ih ess]
+
+theorem mapOpt_fuse {α β γ : Type} (f : α → Option β) (g : α → β → Option γ) : ∀ Q : List α,
+    (mapOpt f Q).bind (fun bs => mapOpt (fun ab => g ab.1 ab.2) (List.zip Q bs)) = mapOpt (fun a => (f a).bind (g a)) Q := by
+  intro Q
+  induction Q with
+  | nil => rfl
+  | cons a Q ih =>
+    simp only [mapOpt]
+    cases hf : f a with
+    | none => rfl
+    | some b =>
+      rw [← ih]
+      cases hm : mapOpt f Q with
+      | none => simp only [Option.bind_some, Option.bind_none]; cases g a b <;> rfl
+      | some bs =>
+        simp only [Option.bind_some, List.zip_cons_cons, mapOpt]
+
+theorem okOpt_mapM {α β : Type} (f : α → E β) (l : List α) : okOpt (l.mapM f) = mapOpt (fun a => okOpt (f a)) l := by
+  induction l with
+  | nil => rfl
+  | cons a l ih =>
+    rw [List.mapM_cons, okOpt_bind]
+    simp only [mapOpt]
+    cases okOpt (f a) with
+    | none => rfl
+    | some b =>
+      simp only [Option.bind_some, okOpt_bind, ih]
+      cases mapOpt (fun a => okOpt (f a)) l <;> rfl
+
+theorem okOpt_denoteIdFun1 (vi : List Dim) (si : List Nat) (i : Nat) (vo : List Dim) (so : List Nat) :
+    okOpt (denoteIdFun1 vi si i vo so) = (idCells vi si i vo so).map (fun cs => (⟨so, cs⟩ : Tensor Cell)) := by
+  unfold denoteIdFun1
+  cases idCells vi si i vo so <;> rfl
+
+
+/-- **Tie between the loop form and the functional form, any number of concatenation-free inputs/outputs.** -/
+theorem denoteId_eq_denoteIdFun_multi (exprsIn exprsOut : List Expr)
+    (hin : Expr.concatFreeL exprsIn = true) (hout : Expr.concatFreeL exprsOut = true) :
+    okOpt (denoteId exprsIn exprsOut) = okOpt (denoteIdFun exprsIn exprsOut) := by
+  rw [denoteId_eq]
+  have hvin := vin_of_concatFree (fun e i v => (v, i, shapeOf e)) exprsIn 0 hin
+  have hvout := vin_of_concatFree (fun _ k v => (v, k)) exprsOut 0 hout
+  simp only [] at hvin hvout ⊢
+  rw [hvin, hvout]
+  unfold denoteIdFun
+  simp only [hin, hout, Bool.and_self, Bool.not_true, Bool.false_eq_true, if_false, List.length_map,
+    List.length_zipIdx]
+  by_cases hlen' : exprsIn.length ≠ exprsOut.length
+  · have : (exprsIn.length != exprsOut.length) = true := by simpa using hlen'
+    simp only [this, if_true]
+  have hlen : exprsIn.length = exprsOut.length := Decidable.of_not_not hlen'
+  have hne : (exprsIn.length != exprsOut.length) = false := by simpa using hlen
+  simp only [hne, Bool.false_eq_true, if_false]
+  -- the pairs, as a map over `Q`
+  let Q := List.zip exprsIn.zipIdx exprsOut
+  have hps : List.zip (exprsIn.zipIdx.map (fun x => (rootDims x.1, x.2, shapeOf x.1)))
+        (exprsOut.zipIdx.map (fun x => (rootDims x.1, x.2)))
+      = Q.map (fun q => ((rootDims q.1.1, q.1.2, shapeOf q.1.1), (rootDims q.2, q.1.2))) := by
+    rw [List.zip_map, zip_zipIdx_zipIdx, List.map_map]
+    rfl
+  rw [hps, okOpt_bind, outer_loop, okOpt_mapM]
+  have hQlen : Q.length = exprsOut.length := by simp [Q, hlen]
+  have hQsnd : Q.map (fun q => q.2) = exprsOut := by
+    have := List.map_snd_zip (l₁ := exprsIn.zipIdx) (l₂ := exprsOut) (by simp [hlen])
+    simpa [Q] using this
+  have hkeys : (Q.map (fun q => ((rootDims q.1.1, q.1.2, shapeOf q.1.1), (rootDims q.2, q.1.2)))).map (fun x => x.2.2)
+      = List.range Q.length := by
+    rw [List.map_map]
+    have h1 : Q.map (fun q => q.1.2) = (exprsIn.zipIdx).map (fun x => x.2) := by
+      have := List.map_fst_zip (l₁ := exprsIn.zipIdx) (l₂ := exprsOut) (by simp [hlen])
+      have h2 := congrArg (List.map (fun (x : Expr × Nat) => x.2)) this
+      rw [List.map_map] at h2
+      exact h2
+    have h3 : (exprsIn.zipIdx).map (fun x => x.2) = List.range Q.length := by
+      rw [hQlen, ← hlen, List.range_eq_range', List.zipIdx_map_snd]
+    exact h1.trans h3
+  have hentries : mapOpt (pairEntries exprsOut) (Q.map (fun q => ((rootDims q.1.1, q.1.2, shapeOf q.1.1), (rootDims q.2, q.1.2))))
+      = mapOpt (fun q => idEntries (rootDims q.1.1) (shapeOf q.1.1) q.1.2 (rootDims q.2) (shapeOf q.2)) Q := by
+    rw [mapOpt_map]
+    apply mapOpt_congr
+    intro q hq
+    have := getD_of_mem_zip (Expr.list []) exprsIn exprsOut [] q (by simpa [Q] using hq)
+    simp only [List.nil_append] at this
+    simp only [pairEntries, this, idEntries, outAssignments]
+  rw [hkeys, hentries]
+  -- the state after the outer loop and the final loop
+  have hstep : ∀ ess : List (List (Nat × Cell)), ess.length = Q.length →
+      okOpt (forIn (exprsOut.zip (applyEntries (exprsOut.map (fun e => List.replicate (prod (shapeOf e)) none))
+          (List.zip (List.range Q.length) ess))) [] idFinal)
+        = mapOpt (fun (ab : ((Expr × Nat) × Expr) × List (Nat × Cell)) =>
+            (gatherAll (prod (shapeOf ab.1.2)) ab.2).map (fun cs => (⟨shapeOf ab.1.2, cs⟩ : Tensor Cell))) (List.zip Q ess) := by
+    intro ess hess
+    rw [← hess, applyEntries_range ess _ (by simp [hess, hQlen]), final_loop]
+    have hz := zip_zipWith_aux (fun (q : (Expr × Nat) × Expr) => q.2)
+      (fun (q : (Expr × Nat) × Expr) => List.replicate (prod (shapeOf q.2)) (none : Option Cell))
+      (fun (es : List (Nat × Cell)) o => es.foldl setter o) Q ess
+    rw [hQsnd] at hz
+    have hS : Q.map (fun q => List.replicate (prod (shapeOf q.2)) (none : Option Cell))
+        = exprsOut.map (fun e => List.replicate (prod (shapeOf e)) none) := by
+      rw [← hQsnd, List.map_map]; rfl
+    rw [hS] at hz
+    rw [hz, mapOpt_map]
+    simp only [List.nil_append, Option.map_id', gatherAll, scatter]
+    rfl
+  have hbind : ((mapOpt (fun q => idEntries (rootDims q.1.1) (shapeOf q.1.1) q.1.2 (rootDims q.2) (shapeOf q.2)) Q).map
+        (fun ess => applyEntries (exprsOut.map (fun e => List.replicate (prod (shapeOf e)) none))
+          (List.zip (List.range Q.length) ess))).bind
+        (fun s => okOpt (forIn (exprsOut.zip s) [] idFinal))
+      = (mapOpt (fun q => idEntries (rootDims q.1.1) (shapeOf q.1.1) q.1.2 (rootDims q.2) (shapeOf q.2)) Q).bind
+        (fun ess => mapOpt (fun (ab : ((Expr × Nat) × Expr) × List (Nat × Cell)) =>
+            (gatherAll (prod (shapeOf ab.1.2)) ab.2).map (fun cs => (⟨shapeOf ab.1.2, cs⟩ : Tensor Cell))) (List.zip Q ess)) := by
+    cases hm : mapOpt (fun q => idEntries (rootDims q.1.1) (shapeOf q.1.1) q.1.2 (rootDims q.2) (shapeOf q.2)) Q with
+    | none => rfl
+    | some ess =>
+      simp only [Option.map_some, Option.bind_some]
+      exact hstep ess (mapOpt_length hm)
+  rw [hbind, mapOpt_fuse _ (fun (q : (Expr × Nat) × Expr) es =>
+    (gatherAll (prod (shapeOf q.2)) es).map (fun cs => (⟨shapeOf q.2, cs⟩ : Tensor Cell)))]
+  apply mapOpt_congr
+  intro q _
+  rw [okOpt_denoteIdFun1]
+  simp only [idCells]
+  cases idEntries (rootDims q.1.1) (shapeOf q.1.1) q.1.2 (rootDims q.2) (shapeOf q.2) <;> rfl
+
+/-! ### elementwise -/
+
+def ewInner (σ : Assign) : (List Dim × Expr) × Nat → List Cell → E (ForInStep (List Cell)) :=
+  fun x args =>
+    match x with
+    | ((v, e), i) => do
+      let σ' ← optE "input axis missing from output" (extend σ (Dim.leavesL v))
+      let p ← optE "unassigned input axis" (position v σ')
+      pure (ForInStep.yield (args ++ [Cell.src i (ravel (shapeOf e) p)]))
+
+def ewOuter (f : String) (vis : List (List Dim)) (exprsIn : List Expr) (vo : List Dim) (so : List Nat) :
+    Assign → List (Option Cell) → E (ForInStep (List (Option Cell))) :=
+  fun σ out => do
+    let args ← forIn (vis.zip exprsIn).zipIdx [] (ewInner σ)
+    let po ← optE "unassigned output axis" (position vo σ)
+    pure (ForInStep.yield (out.set (ravel so po) (some (Cell.app f args))))
+
+theorem denoteElementwise_eq (f : String) (exprsIn : List Expr) (exprOut : Expr) :
+    denoteElementwise f exprsIn exprOut = (do
+      let vis ← exprsIn.mapM singleView
+      let vo ← singleView exprOut
+      let s ← forIn (assignments (axesOf (Dim.leavesL vo))) (List.replicate (prod (shapeOf exprOut)) none)
+        (ewOuter f vis exprsIn vo (shapeOf exprOut))
+      let cs ← s.mapM (optE "output not fully defined")
+      pure ⟨shapeOf exprOut, cs⟩) := by
+  unfold denoteElementwise
+  rfl
+
+def ewArg (σ : Assign) (x : (List Dim × Expr) × Nat) : Option Cell :=
+  match extend σ (Dim.leavesL x.1.1) with
+  | some σ' => cellAt x.1.1 (shapeOf x.1.2) x.2 σ'
+  | none => none
+
+theorem ew_inner_loop (σ : Assign) : ∀ (l : List ((List Dim × Expr) × Nat)) (args : List Cell),
+    okOpt (forIn l args (ewInner σ)) = (mapOpt (ewArg σ) l).map (fun cs => args ++ cs) := by
+  intro l
+  induction l with
+  | nil => intro args; simp [mapOpt, okOpt_pure]
+  | cons x l ih =>
+    intro args
+    obtain ⟨⟨v, e⟩, i⟩ := x
+    rw [List.forIn_cons]
+    simp only [mapOpt, ewArg, ewInner, cellAt, flatPos]
+    cases hx : extend σ (Dim.leavesL v) with
+    | none => simp only [optE_none, error_bind, okOpt, Option.map_none]
+    | some σ' =>
+      cases hp : position v σ' with
+      | none => simp only [hp, optE_some, optE_none, pure_bind, error_bind, okOpt, Option.map_none]
+      | some p =>
+        simp only [hp, optE_some, pure_bind, Option.map_some, ih]
+        cases mapOpt (ewArg σ) l with
+        | none => rfl
+        | some cs => simp
+
+def ewEntryL (f : String) (vis : List (List Dim)) (exprsIn : List Expr) (vo : List Dim) (so : List Nat) (σ : Assign) :
+    Option (Nat × Cell) :=
+  match mapOpt (ewArg σ) (vis.zip exprsIn).zipIdx, flatPos vo so σ with
+  | some args, some po => some (po, .app f args)
+  | _, _ => none
+
+theorem ew_outer_loop (f : String) (vis : List (List Dim)) (exprsIn : List Expr) (vo : List Dim) (so : List Nat) :
+    ∀ (asg : List Assign) (out : List (Option Cell)),
+      okOpt (forIn asg out (ewOuter f vis exprsIn vo so))
+        = (mapOpt (ewEntryL f vis exprsIn vo so) asg).map (fun es => es.foldl setter out) := by
+  intro asg
+  induction asg with
+  | nil => intro out; rfl
+  | cons σ asg ih =>
+    intro out
+    rw [List.forIn_cons]
+    simp only [ewOuter, bind_assoc, pure_bind]
+    rw [okOpt_bind, ew_inner_loop]
+    simp only [mapOpt, ewEntryL, flatPos]
+    cases mapOpt (ewArg σ) (vis.zip exprsIn).zipIdx with
+    | none => rfl
+    | some args =>
+      simp only [Option.map_some, Option.bind_some, List.nil_append]
+      cases hp : position vo σ with
+      | none => simp only [optE_none, error_bind, okOpt, Option.map_none]
+      | some po =>
+        simp only [optE_some, pure_bind, Option.map_some, ih]
+        cases mapOpt (ewEntryL f vis exprsIn vo so) asg with
+        | none => rfl
+        | some es => rfl
+
+theorem singleView_of_concatFree {e : Expr} (h : e.concatFree = true) : singleView e = pure (rootDims e) := by
+  simp [singleView, views_of_concatFree h]
+
+theorem mapM_singleView : ∀ (l : List Expr), Expr.concatFreeL l = true →
+    l.mapM singleView = (pure (l.map rootDims) : E _) := by
+  intro l
+  induction l with
+  | nil => intro _; rfl
+  | cons e l ih =>
+    intro h
+    rw [concatFreeL_cons, Bool.and_eq_true] at h
+    rw [List.mapM_cons, singleView_of_concatFree h.1, ih h.2]
+    rfl
+
+/-- **Tie between the loop form and the functional form of elementwise operations.** -/
+theorem denoteElementwise_eq_fun (f : String) (exprsIn : List Expr) (exprOut : Expr)
+    (hin : Expr.concatFreeL exprsIn = true) (hout : exprOut.concatFree = true) :
+    okOpt (denoteElementwise f exprsIn exprOut) = okOpt (denoteElementwiseFun f exprsIn exprOut) := by
+  rw [denoteElementwise_eq, mapM_singleView exprsIn hin, singleView_of_concatFree hout]
+  simp only [pure_bind]
+  rw [okOpt_bind, ew_outer_loop]
+  unfold denoteElementwiseFun
+  simp only [hin, hout, Bool.and_self, Bool.not_true, Bool.false_eq_true, if_false, ewCells, outAssignments]
+  have hent : ewEntryL f (exprsIn.map rootDims) exprsIn (rootDims exprOut) (shapeOf exprOut)
+      = ewEntry f (exprsIn.map (fun e => (rootDims e, shapeOf e))) (rootDims exprOut) (shapeOf exprOut) := by
+    funext σ
+    have : mapOpt (ewArg σ) ((exprsIn.map rootDims).zip exprsIn).zipIdx
+        = ewArgs (exprsIn.map (fun e => (rootDims e, shapeOf e))) σ := by
+      unfold ewArgs
+      have h1 : (exprsIn.map rootDims).zip exprsIn = exprsIn.map (fun e => (rootDims e, e)) := by
+        rw [List.zip_map_left, List.zip_eq_zipWith]; simp [List.zipWith_self]
+      rw [h1, List.zipIdx_map, List.zipIdx_map, mapOpt_map, mapOpt_map]
+      rfl
+    simp only [ewEntryL, ewEntry, this]
+    rfl
+  rw [hent]
+  cases mapOpt (ewEntry f (exprsIn.map (fun e => (rootDims e, shapeOf e))) (rootDims exprOut) (shapeOf exprOut))
+      (assignments (axesOf (Dim.leavesL (rootDims exprOut)))) with
+  | none => rfl
+  | some es =>
+    have hs : setter = fun acc e => acc.set e.1 (some e.2) := rfl
+    simp only [Option.map_some, Option.bind_some, okOpt_bind, okOpt_mapM_optE, gatherAll, scatter, hs]
+    cases mapOpt id (List.foldl (fun acc e => acc.set e.1 (some e.2)) (List.replicate (prod (shapeOf exprOut)) none) es) with
+    | none => rfl
+    | some cs => rfl
+
+/-! ### reductions: invariance of `denoteReduce` under renaming -/
+
+def rdInner (vi : List Dim) (si : List Nat) (li : List Leaf) (σ : Assign) :
+    Assign → List Cell → E (ForInStep (List Cell)) := fun τ cells => do
+  let a ← optE "un-bracketed input axis missing from output" (inputAssign σ τ li)
+  let p ← optE "unassigned input axis" (position vi a)
+  pure (ForInStep.yield (cells ++ [Cell.src 0 (ravel si p)]))
+
+def rdOuter (f : String) (vi : List Dim) (si : List Nat) (li : List Leaf) (marked : List (String × Nat)) (vo : List Dim) :
+    Assign → List (List Nat × Cell) → E (ForInStep (List (List Nat × Cell))) := fun σ entries => do
+  let cells ← forIn (assignments marked) [] (rdInner vi si li σ)
+  let po ← optE "unassigned output axis" (position vo σ)
+  pure (ForInStep.yield (entries ++ [(po, mkRed f cells)]))
+
+theorem denoteReduce_eq (f : String) (e eo : Expr) :
+    denoteReduce f e eo = (do
+      let vi ← singleView e
+      let vo ← singleView eo
+      let entries ← forIn (assignments (axesOf (Dim.leavesL vo))) []
+        (rdOuter f vi (shapeOf e) (Dim.leavesL vi) (axesOf ((Dim.leavesL vi).filter (·.marked))) vo)
+      fillOutput (shapeOf eo) entries) := by
+  unfold denoteReduce
+  rfl
+
+def inputStep (σ τ : Assign) (acc : Assign) (l : Leaf) : Option Assign :=
+  if l.marked then
+    match τ.get l.name with
+    | some v => some (if (acc.get l.name).isSome then acc else acc ++ [(l.name, v)])
+    | none => none
+  else
+    match acc.get l.name with
+    | some _ => some acc
+    | none =>
+      match σ.get l.name with
+      | some v => some (acc ++ [(l.name, v)])
+      | none => if l.size == 1 then some (acc ++ [(l.name, 0)]) else none
+
+theorem inputAssign_eq (σ τ : Assign) (ls : List Leaf) : inputAssign σ τ ls = ls.foldlM (inputStep σ τ) [] := rfl
+
+theorem inputStep_rename {ρ : String → String} (hρ : Function.Injective ρ) (σ τ acc : Assign) (l : Leaf) :
+    inputStep (Assign.rename ρ σ) (Assign.rename ρ τ) (Assign.rename ρ acc) (Leaf.rename ρ l)
+      = (inputStep σ τ acc l).map (Assign.rename ρ) := by
+  have hn : (Leaf.rename ρ l).name = ρ l.name := rfl
+  have hm : (Leaf.rename ρ l).marked = l.marked := rfl
+  have hs : (Leaf.rename ρ l).size = l.size := rfl
+  simp only [inputStep, hn, hm, hs, get_rename hρ]
+  by_cases hmk : l.marked = true
+  · simp only [hmk, if_true]
+    cases τ.get l.name with
+    | none => rfl
+    | some v =>
+      cases (acc.get l.name).isSome <;> simp [Assign.rename]
+  · simp only [hmk, Bool.false_eq_true, if_false]
+    cases acc.get l.name with
+    | some _ => rfl
+    | none =>
+      cases σ.get l.name with
+      | some v => simp [Assign.rename]
+      | none =>
+        by_cases h1 : (l.size == 1) = true
+        · simp [h1, Assign.rename]
+        · simp [h1]
+
+theorem inputFold_rename {ρ : String → String} (hρ : Function.Injective ρ) (σ τ : Assign) : ∀ (ls : List Leaf) (acc : Assign),
+    (ls.map (Leaf.rename ρ)).foldlM (inputStep (Assign.rename ρ σ) (Assign.rename ρ τ)) (Assign.rename ρ acc)
+      = (ls.foldlM (inputStep σ τ) acc).map (Assign.rename ρ) := by
+  intro ls
+  induction ls with
+  | nil => intro acc; rfl
+  | cons l ls ih =>
+    intro acc
+    simp only [List.map_cons, List.foldlM_cons, inputStep_rename hρ]
+    cases inputStep σ τ acc l with
+    | none => rfl
+    | some acc' => exact ih acc'
+
+theorem inputAssign_rename {ρ : String → String} (hρ : Function.Injective ρ) (σ τ : Assign) (ls : List Leaf) :
+    inputAssign (Assign.rename ρ σ) (Assign.rename ρ τ) (ls.map (Leaf.rename ρ)) = (inputAssign σ τ ls).map (Assign.rename ρ) :=
+  inputFold_rename hρ σ τ ls []
+
+theorem filter_marked_rename (ρ : String → String) (ls : List Leaf) :
+    (ls.map (Leaf.rename ρ)).filter (·.marked) = (ls.filter (·.marked)).map (Leaf.rename ρ) := by
+  rw [List.filter_map]; rfl
+
+theorem rdInner_rename {ρ : String → String} (hρ : Function.Injective ρ) (vi : List Dim) (si : List Nat) (li : List Leaf)
+    (σ τ : Assign) (cells : List Cell) :
+    rdInner (Dim.renameL ρ vi) si (li.map (Leaf.rename ρ)) (Assign.rename ρ σ) (Assign.rename ρ τ) cells
+      = rdInner vi si li σ τ cells := by
+  simp only [rdInner, inputAssign_rename hρ]
+  cases inputAssign σ τ li with
+  | none => rfl
+  | some a => simp only [Option.map_some, optE_some, pure_bind, position_rename hρ]
+
+theorem rdOuter_rename {ρ : String → String} (hρ : Function.Injective ρ) (f : String) (vi : List Dim) (si : List Nat)
+    (vo : List Dim) (σ : Assign) (entries : List (List Nat × Cell)) :
+    rdOuter f (Dim.renameL ρ vi) si (Dim.leavesL (Dim.renameL ρ vi))
+        (axesOf ((Dim.leavesL (Dim.renameL ρ vi)).filter (·.marked))) (Dim.renameL ρ vo) (Assign.rename ρ σ) entries
+      = rdOuter f vi si (Dim.leavesL vi) (axesOf ((Dim.leavesL vi).filter (·.marked))) vo σ entries := by
+  simp only [rdOuter, leavesL_rename, filter_marked_rename, axesOf_rename hρ, assignments_rename, List.forIn_map,
+    position_rename hρ]
+  have : (fun τ y => rdInner (Dim.renameL ρ vi) si ((Dim.leavesL vi).map (Leaf.rename ρ)) (Assign.rename ρ σ)
+      (Assign.rename ρ τ) y) = rdInner vi si (Dim.leavesL vi) σ := by
+    funext τ y; exact rdInner_rename hρ vi si _ σ τ y
+  rw [this]
+
+/-- **Reductions are invariant under consistent renaming** (executable loop form, concatenation-free). -/
+theorem denoteReduce_rename {ρ : String → String} (hρ : Function.Injective ρ) (f : String) (e eo : Expr)
+    (he : e.concatFree = true) (heo : eo.concatFree = true) :
+    denoteReduce f (e.rename ρ) (eo.rename ρ) = denoteReduce f e eo := by
+  rw [denoteReduce_eq, denoteReduce_eq,
+    singleView_of_concatFree (by rw [concatFree_rename]; exact he),
+    singleView_of_concatFree (by rw [concatFree_rename]; exact heo),
+    singleView_of_concatFree he, singleView_of_concatFree heo]
+  simp only [pure_bind, rootDims_rename, shapeOf_rename, leavesL_rename ρ (rootDims eo), axesOf_rename hρ,
+    assignments_rename, List.forIn_map]
+  have : (fun σ y => rdOuter f (Dim.renameL ρ (rootDims e)) (shapeOf e) (Dim.leavesL (Dim.renameL ρ (rootDims e)))
+      (axesOf ((Dim.leavesL (Dim.renameL ρ (rootDims e))).filter (·.marked))) (Dim.renameL ρ (rootDims eo))
+      (Assign.rename ρ σ) y)
+      = rdOuter f (rootDims e) (shapeOf e) (Dim.leavesL (rootDims e))
+          (axesOf ((Dim.leavesL (rootDims e)).filter (·.marked))) (rootDims eo) := by
+    funext σ y; exact rdOuter_rename hρ f _ _ _ σ y
+  rw [this]
+
+theorem denoteReduce_rename_on {ρ : String → String} (f : String) (e eo : Expr)
+    (he : e.concatFree = true) (heo : eo.concatFree = true) (hρ : InjOn ρ (e.names ++ eo.names)) :
+    denoteReduce f (e.rename ρ) (eo.rename ρ) = denoteReduce f e eo := by
+  have h := denoteReduce_rename (extInj_injective hρ) f e eo he heo
+  rw [Expr.rename_congr (ρ := ρ) (ρ' := extInj ρ (e.names ++ eo.names)) e
+      (fun n hn => (extInj_agree ρ _ (List.mem_append_left _ hn)).symm),
+    Expr.rename_congr (ρ := ρ) (ρ' := extInj ρ (e.names ++ eo.names)) eo
+      (fun n hn => (extInj_agree ρ _ (List.mem_append_right _ hn)).symm)]
+  exact h
 
 end Einx.Denote
